@@ -375,3 +375,21 @@ fn f25_component_nested_three_levels_deep_round_trips() {
     let o = c.encode();
     assert_eq!(print(&w), print(&o));
 }
+
+#[test]
+fn f26_component_iteration_continues_after_a_module_whose_last_function_is_skipped() {
+    let w = wat::parse_str(r#"(component
+        (core module (func nop) (func nop nop))
+        (core module (func nop nop nop))
+    )"#).unwrap();
+    let mut c = Component::parse(&w, false).unwrap();
+    let mut skip: HashMap<ModuleID, Vec<FunctionID>> = HashMap::new();
+    skip.insert(ModuleID(0), vec![FunctionID(1)]);
+    let mut it = ComponentIterator::new(&mut c, skip);
+    let mut n = 0;
+    loop {
+        n += 1;
+        if it.next().is_none() { break; }
+    }
+    assert_eq!(n, 6); // module 0 func 0: nop end; module 1 func 0: nop nop nop end
+}
